@@ -115,7 +115,9 @@ class Check(PropertyCheck):
                 reqs.append(("POST", "/", t.encode("utf-8"), "utf8"))
                 posted.append(t.encode("utf-8"))
             elif k == 5:
-                reqs.append(("POST", "/", b"", "utf8"))
+                reqs.append(("POST", "/", self.rng.choice([b"", "\ufeff".encode(), "\ufeff+--+\n|  |\n+--+\n".encode(),
+                                                         ("\u200b" + gen.zoo(r)).encode(), gen.zoo(r, crlf=True).encode(),
+                                                         gen.zoo(r).encode()]), "utf8"))
             elif k == 6:
                 reqs.append(("POST", "/", b"+--\xff\xfe--+", "bad"))
             elif k == 7:
